@@ -246,6 +246,10 @@ pub fn cases(seed: u64, tier: Tier) -> Cases {
             bins.push((0..len).map(|_| rng.next() as u8).collect());
         }
     }
+    // longer than any buffer an encoder may work through in pieces
+    for len in [511usize, 512, 513, 514, 1024, 1025, 1537, 4099] {
+        bins.push((0..len).map(|_| rng.next() as u8).collect());
+    }
     let mut btexts: Vec<String> = vec!["=", "==", "A", "AA", "AAA", "AA=", "AA==", "AB==", "AAA=", "AAB=", "AA=A", "A===", "AAAA=", "AAAA", "AA A", "AA\n==", "-_-_", "QQ==QQ==", "QUJD", " QUJD", "QUJD ", "QQ", "QUI"].into_iter().map(String::from).collect();
     for b in &bins {
         let x = Bytes::from(b.clone());
@@ -329,6 +333,24 @@ pub fn cases(seed: u64, tier: Tier) -> Cases {
             dtexts.push(format!("{}-12-31T23:60:00Z", &base[..4]));
             dtexts.push(format!("{}-12-31T23:59:61Z", &base[..4]));
             dtexts.push(format!("{}-1-31T23:59:59Z", &base[..4]));
+        }
+    }
+    // rids made from components, valid and not: whatever is accepted prints a text that parses back to it
+    for sv in ["a", "svc-1", "s9", "", "A"] {
+        for inst in ["", "inst", "i-2", "1x", "a.b"] {
+            for ty in ["t", "type-x", "", "9t"] {
+                for loc in ["l", "L_1.x.y", "", "a.b", "-._"] {
+                    let comps = [sv, inst, ty, loc];
+                    if let Ok(rid) = conjure_object::ResourceIdentifier::from_components(sv, inst, ty, loc) {
+                        let text = rid.to_plain();
+                        let back = conjure_object::ResourceIdentifier::from_plain(&text);
+                        cs.push("rid-text", "noop".into(), "noop".into(), true, format!("rid from components {:?}, printed and parsed back", comps));
+                        if back.as_ref().ok() != Some(&rid) {
+                            cs.fail_last("rid:roundtrip", format!("from_components{:?} is accepted and prints {:?}, which parses back to {:?}", comps, text, back.map(|b| b.to_plain())));
+                        }
+                    }
+                }
+            }
         }
     }
     for s in &dtexts {
